@@ -112,9 +112,45 @@ mod verif_kani_wal {
         kani::cover!(true);
     }
 
+    // @harness: wal_roundtrip_payload_le8_tail3
+    // @bound: payload <= 8 bytes (all contents, all timestamps), followed by a 3-byte tail of arbitrary content; unwind 10
+    // @tier: quick
+    // @complete: false
+    #[kani::proof]
+    #[kani::unwind(10)]
+    #[kani::stub(crc32fast::hash, crc_stub)]
+    fn wal_roundtrip_payload_le8_tail3() {
+        let payload: [u8; 8] = kani::any();
+        let len: usize = kani::any();
+        kani::assume(len <= 8);
+        let tail: [u8; 3] = kani::any();
+        let timestamp: u64 = kani::any();
+        let data = payload[..len].to_vec();
+        let checksum = crc_stub(&data);
+        let e = WalEntry { data, timestamp, checksum };
+        let mut bytes = e.encode();
+        assert!(bytes.len() == 16 + len);
+        bytes.extend_from_slice(&tail);
+        match WalEntry::decode(&bytes) {
+            Some((d, n)) => {
+                assert!(n == 16 + len);
+                assert!(d.timestamp == timestamp);
+                assert!(d.checksum == checksum);
+                assert!(d.data.len() == len);
+                let mut i = 0;
+                while i < len {
+                    assert!(d.data[i] == payload[i]);
+                    i += 1;
+                }
+            }
+            None => assert!(false),
+        }
+        kani::cover!(len == 8);
+    }
+
     // @harness: wal_roundtrip_payload_le8
     // @bound: payload <= 8 bytes, tail <= 4 bytes (all contents, all timestamps); unwind 10
-    // @tier: quick
+    // @tier: thorough
     // @complete: false
     #[kani::proof]
     #[kani::unwind(10)]
